@@ -20,6 +20,7 @@ import (
 	"context"
 	"errors"
 	"fmt"
+	"math"
 
 	"github.com/cloudwego/dynamicgo/conv"
 	"github.com/cloudwego/dynamicgo/http"
@@ -234,6 +235,10 @@ func (self *BinaryConv) doRecurse(ctx context.Context, desc *thrift.TypeDescript
 		v, e := p.ReadDouble()
 		if e != nil {
 			return wrapError(meta.ErrWrite, "", e)
+		}
+		// JSON has no representation for NaN and +-Inf
+		if math.IsNaN(v) || math.IsInf(v, 0) {
+			return wrapError(meta.ErrConvert, fmt.Sprintf("unsupported float64 value %v for JSON", v), nil)
 		}
 		*out = json.EncodeFloat64(*out, float64(v))
 	case thrift.STRING:
